@@ -437,6 +437,13 @@ func rpcRefreshContract(ctx context.Context, t TransportClient, tp TxPool, signe
 		return RPCRefreshContractResult{}, clientErrf("expected renewal resolution")
 	}
 
+	// check for no funny business: the final transaction must be the one we
+	// signed
+	if renewalTxn.ID() != hostRenewalTxn.ID() {
+		signer.ReleaseInputs([]types.V2Transaction{renewalTxn})
+		return RPCRefreshContractResult{}, clientErrf("transaction ID mismatch")
+	}
+
 	// validate the host signature
 	if !existing.HostPublicKey.VerifyHash(renewalSigHash, hostRenewal.HostSignature) {
 		signer.ReleaseInputs([]types.V2Transaction{renewalTxn})
@@ -1168,6 +1175,13 @@ func RPCFormContract(ctx context.Context, t TransportClient, tp TxPool, signer F
 		return RPCFormContractResult{}, clientErrf("transaction ID mismatch")
 	}
 
+	// the transaction ID does not cover signatures: the contract must still
+	// carry the signature we sent, or the set cannot confirm
+	if hostFormationTxn.FileContracts[0].RenterSignature != fc.RenterSignature {
+		signer.ReleaseInputs([]types.V2Transaction{formationTxn})
+		return RPCFormContractResult{}, clientErrf("renter signature missing from the final transaction")
+	}
+
 	// validate the host signature
 	fc.HostSignature = hostFormationTxn.FileContracts[0].HostSignature
 	if !fc.HostPublicKey.VerifyHash(formationSigHash, fc.HostSignature) {
@@ -1306,6 +1320,13 @@ func RPCRenewContract(ctx context.Context, t TransportClient, tp TxPool, signer 
 	if !ok {
 		signer.ReleaseInputs([]types.V2Transaction{renewalTxn})
 		return RPCRenewContractResult{}, clientErrf("expected renewal resolution")
+	}
+
+	// check for no funny business: the final transaction must be the one we
+	// signed
+	if renewalTxn.ID() != hostRenewalTxn.ID() {
+		signer.ReleaseInputs([]types.V2Transaction{renewalTxn})
+		return RPCRenewContractResult{}, clientErrf("transaction ID mismatch")
 	}
 
 	// validate the host signature
